@@ -21,7 +21,9 @@ def boundary_values(k):
 
 
 def emit(ctx, args, n):
-    r = ctx.emit("dur_new", {"args": args, "how": "new", "entry": ("Duration", "duration")[n % 2]})
+    # the lazily derived components are read in a different order on every third object
+    first = ((), ("minutes",), ("remaining_seconds", "minutes", "hours"))[n % 3]
+    r = ctx.emit("dur_new", {"args": args, "how": "new", "entry": ("Duration", "duration")[n % 2], "first": list(first)})
     if isinstance(r, dict) and r.get("k") == "dur":
         comp = {"y": r["years"], "mo": r["months"], "w": r["weeks"], "d": r["remaining_days"], "h": r["hours"],
                 "mi": r["minutes"], "s": r["remaining_seconds"], "ms": 0, "us": r["microseconds"]}
